@@ -197,6 +197,14 @@ def check_sim_mutex(rep, u):
     rep.ob("C04.3", init, "mutex:global", ok,
            "the global mutex is written only by thread_init/thread_shutdown" if ok else "the global mutex is written by %s" % names,
            init.loc[0])
+    # ... and it exists: entered with the pointer NULL, thread_init leaves it assigned from the constructor on every path (with the test
+    # inverted the mutex is never created, p_mutex_lock (NULL) fails silently and every simulated atomic runs unserialised)
+    from plint.wiring import init_creates
+    made = [x for x in init_creates(u.fn("p_atomic_thread_init", raw=True)) if x[0] == "pp_atomic_mutex"]
+    okm = bool(made) and made[0][2] and made[0][1] == "p_mutex_new"
+    rep.ob("C04.3", init, "mutex:created", okm, "thread_init creates the global mutex whenever it does not exist yet" if okm else
+           "p_atomic_thread_init can return with pp_atomic_mutex still NULL: p_mutex_lock (NULL) only reports failure, which the operations ignore, so no read-modify-write "
+           "is serialised", made[0][3] if made else init.loc[0])
 
 
 def check_op(rep, fn, model, op, width):
@@ -390,6 +398,8 @@ def check_op(rep, fn, model, op, width):
 RENAME_LOCALS = ['src/patomic-c11.c', 'src/patomic-sync.c', 'src/patomic-sim.c']
 
 SELFTEST = [
+    dict(id="sim-mutex-never-created", file="src/patomic-sim.c", expect="C04.3",
+         old="\tif (P_LIKELY (pp_atomic_mutex == NULL))\n\t\tpp_atomic_mutex = p_mutex_new ();", new="\tif (P_LIKELY (pp_atomic_mutex != NULL))\n\t\tpp_atomic_mutex = p_mutex_new ();"),
     dict(id="c11-add-fetch", file="src/patomic-c11.c", expect="C04.1",
          old="return (pint) __atomic_fetch_add (atomic, val, __ATOMIC_SEQ_CST);", new="return (pint) __atomic_add_fetch (atomic, val, __ATOMIC_SEQ_CST);"),
     dict(id="c11-cas-swapped", file="src/patomic-c11.c", expect="C04.1",
